@@ -95,3 +95,8 @@ Definition auto_case (margin sp : Q) (lib : list mode) (fl : list (Q * Q * Z * f
 (* ---- the line model with amplifier state (used by examples and by C16) ---- *)
 Definition chp_s (c : chp) : string := append (qs (sig c)) (append "~" (qs (nse c))).
 Definition spectrum_s (sp : spectrum) : string := join "," (map chp_s sp).
+
+(* ---- amplifier state histories (dB): designed gain, p_max, events; gains after every propagation ---- *)
+Definition ap (pin : Q) : aev := AProp (Some pin).
+Definition ap_none : aev := AProp None.
+Definition amp_case (g0 pmax : Q) (evs : list aev) : string := qlist_s (amp_history g0 pmax evs).
